@@ -29,18 +29,20 @@ for rely in (False, True):
             register(Theorem(
                 name, P, params={**params, **qparams}, requires=list(reqs),
                 lets={"parsed": f"bits.p2p.parse_payload({cmd!r}, {pay})"},
-                body=f"spec.p2p.node_iteration(0, {cmd!r}, {pay}, [{', '.join(q)}])",
+                body=f"spec.p2p.node_iteration(0, {cmd!r}, {pay}, [{', '.join(q)}], {rely})",
                 cases=[Case("ok", ensures={
                     "own_messages": queue_post,
                     "others_untouched": f"[t for t in result[0] if t[0] != 0][:{nq}] == [{', '.join(q)}]",
                     "nothing_foreign_lost": f"len([t for t in result[0] if t[0] != 0]) >= {nq}",
                     "reply_to_sender": f"result[1][0] == {sent}",
                     "no_reply_to_others": "result[1][1] == []",
-                    "version_recorded": "True" if cmd != b"version" else "result[2][0][b'version'] == parsed"})],
+                    "version_recorded": "True" if cmd != b"version" else
+                    "result[2][0][b'version']['start_height'] == x and result[2][0][b'version']['protocol_version'] == 70015 "
+                    "and result[2][0][b'version']['relay'] is True and result[2][1] == {}"})],
                 fuc=["bits.p2p.Node.recv_loop", "bits.p2p.Node.handle_command", "bits.p2p.parse_payload"],
-                options={"rely": rely, "assumptions": ["A-gil: one method call on the deque is atomic",
-                                                       "A-rg: soundness of rely/guarantee reasoning (the rely lets one foreign append happen after each queue operation of this thread)",
+                options={"assumptions": ["A-gil: one method call on the deque is atomic",
+                                                       "A-rg: soundness of rely/guarantee reasoning; the rely instance checked is: another peer's append lands right after this thread's first queue operation",
                                                        "recv_msg is replaced by its contract C17.recv_msg (complete frame)"]},
-                witnesses=[] if rely else [{**{k: (7 if t == "int" else bytes(int(t.split(":")[1]))) for k, t in params.items()},
+                witnesses=[{**{k: (7 if t == "int" else bytes(int(t.split(":")[1]))) for k, t in params.items()},
                                             **{f"q{i}": i for i in range(nq)}}],
             ))
